@@ -460,7 +460,15 @@ class UAlg(_Alg):
 
 
 def _order(x, y):
-    return (x, y) if x.get_id() <= y.get_id() else (y, x)
+    """Canonical argument order for the commutative fadd/fmul.  The structural
+    hash is stable for structurally equal terms (AST ids are recycled by z3
+    when terms are freed, so they are not)."""
+    hx, hy = x.hash(), y.hash()
+    if hx != hy:
+        return (x, y) if hx < hy else (y, x)
+    if z3.eq(x, y):
+        return (x, y)
+    return (x, y) if x.sexpr() <= y.sexpr() else (y, x)
 
 
 # --------------------------------------------------------------------------
@@ -536,9 +544,7 @@ def sym_isinstance(x, types):
 
 def sym_float(x=0.0):
     if isinstance(x, SymNum):
-        if cur().mode == "U" and x.kind != KFLOAT:
-            # int -> float conversion is a (deterministic) rounding
-            return SymNum(x.t, KFLOAT) if x.kind in (KINT, KBOOL) else SymNum(x.t, KFLOAT)
+        # int -> float conversion is exact below 2^53 (stated assumption)
         return SymNum(x.t, KFLOAT)
     if isinstance(x, SymBool):
         return SymNum(SymNum.lift(x).t, KFLOAT)
